@@ -285,27 +285,15 @@ func (c *EvalCtx) Eval(e *Expr) EV {
 				return EV{V: r, T: tBool}
 			}
 			q := tb.Forall(kv, r)
-			// hypothesis-side quantifier: also state it in "shifted" form for every index expression k+c in the
-			// body (forall j in lo+c..hi+c :: body[k := j-c]) - equivalent, but E-matching then finds X[j] directly
-			for _, off := range indexOffsets(e.Args[2], e.Var) {
-				off := off
-				var extra *Term
-				if err := x.guard("shifted quantifier", func() {
-					c0 := c.toIndex(c.Eval(off))
-					jv := tb.BoundVar(e.Var+"s", BV(64))
-					nc2 := c.clone()
-					nc2.names = map[string]EV{}
-					for k, v := range c.names {
-						nc2.names[k] = v
-					}
-					nc2.names[e.Var] = EV{V: tb.BVBin("bvsub", jv, c0), T: tInt}
-					rng2 := tb.And(tb.BVCmp("bvsle", tb.BVBin("bvadd", lo, c0), jv), tb.BVCmp("bvslt", jv, tb.BVBin("bvadd", hi, c0)),
-						tb.BVCmp("bvsle", tb.BVi(64, -(1<<40)), c0), tb.BVCmp("bvsle", c0, tb.BVi(64, 1<<40)),
-						tb.BVCmp("bvsle", tb.BVi(64, -(1<<40)), lo), tb.BVCmp("bvsle", hi, tb.BVi(64, 1<<40)))
-					extra = tb.Forall(jv, tb.Implies(rng2, nc2.Bool(e.Args[2])))
-				}); err == nil && extra != nil {
-					q = tb.And(q, extra)
+			// hypothesis-side quantifier: also state it in "shifted" form for every array read at k+c in the body
+			// (forall j :: body[k := j-c]) - an equivalent formula in which E-matching finds A[j] directly
+			for n, c0 := range tb.IndexOffsets(r, kv) {
+				if n >= 4 {
+					break
 				}
+				jv := tb.BoundVar(e.Var+"s", BV(64))
+				shifted := tb.Subst(r, kv, tb.BVBin("bvsub", jv, c0))
+				q = tb.And(q, tb.Forall(jv, shifted))
 			}
 			return EV{V: q, T: tBool}
 		}
@@ -874,6 +862,18 @@ func (c *EvalCtx) call(e *Expr) EV {
 				return EV{V: v.IsNil, T: tBool}
 			}
 			specFail("nilish of %T", a.V)
+		case "implements":
+			// implements(x, I): the dynamic type of interface value x implements interface I
+			a := c.Eval(args[0])
+			iv, ok := a.V.(*IfaceV)
+			if !ok || args[1].Op != "ident" {
+				specFail("implements(ifaceValue, InterfaceName)")
+			}
+			it := c.resolveType(args[1].Name)
+			if iv.Dyn != nil {
+				return EV{V: tb.Bool(types.Implements(iv.Dyn, it.Underlying().(*types.Interface))), T: tBool}
+			}
+			return EV{V: x.implementsUF(iv, it), T: tBool}
 		case "isnil":
 			a := c.Eval(args[0])
 			return EV{V: c.equal(a, EV{IsNil: true}, e), T: tBool}
